@@ -195,3 +195,44 @@ Proof.
     + intros i j Hi Hj. rewrite (O4 i j Hi Hj). unfold charge_at, qe_of, qlist_of. rewrite Hk. fold nw.
       destruct (_ =? 0)%Z; [reflexivity|]. destruct (_ =? 1)%Z; reflexivity.
 Qed.
+
+(* ------------------------------------------------------------------ oversample <= 0, the empty pattern *)
+Lemma format_bayer_empty : exists p, format_bayer [] = Ok p /\ pk p = 0%Z.
+Proof. eexists. split; reflexivity. Qed.
+
+Lemma bayer_entry_zero_division (img : imgrep QcS) wv u qr qg qb vr vg vb pat p os :
+  qe_asarray_any qr wv u = Ok vr -> qe_asarray_any qg wv u = Ok vg -> qe_asarray_any qb wv u = Ok vb ->
+  format_bayer pat = Ok p -> (os = 0 \/ pk p = 0)%Z ->
+  collect_charge_bayer_channels_entry img wv u qr qg qb pat os = RaisedZeroDivision /\
+  collect_charge_bayer_entry img wv u qr qg qb pat os = RaisedZeroDivision.
+Proof.
+  intros Hr Hg Hb Hp H. unfold collect_charge_bayer_entry, collect_charge_bayer_channels_entry.
+  rewrite Hr, Hg, Hb, Hp. replace ((os =? 0) || (pk p =? 0))%Z with true by lia. split; reflexivity.
+Qed.
+
+Lemma bayer_entry_regular (img : imgrep QcS) wv u qr qg qb pat os :
+  (forall p, format_bayer pat = Ok p -> os <> 0 /\ pk p <> 0)%Z ->
+  collect_charge_bayer_channels_entry img wv u qr qg qb pat os
+  = lift (collect_charge_bayer_channels_any img wv u qr qg qb pat os).
+Proof.
+  intros H. unfold collect_charge_bayer_channels_entry.
+  destruct (qe_asarray_any qr wv u); [|reflexivity]. destruct (qe_asarray_any qg wv u); [|reflexivity].
+  destruct (qe_asarray_any qb wv u); [|reflexivity]. destruct (format_bayer pat) as [p|] eqn:E; [|reflexivity].
+  destruct (H p eq_refl). replace ((os =? 0) || (pk p =? 0))%Z with false by lia. reflexivity.
+Qed.
+
+Lemma bayer_entry_negative_oversample (img : imgrep QcS) wv u qr qg qb vr vg vb pat p os :
+  qe_asarray_any qr wv u = Ok vr -> qe_asarray_any qg wv u = Ok vg -> qe_asarray_any qb wv u = Ok vb ->
+  format_bayer pat = Ok p -> (pk p <> 0)%Z -> (os < 0)%Z ->
+  collect_charge_bayer_channels_entry img wv u qr qg qb pat os = Raised ValueError.
+Proof.
+  intros Hr Hg Hb Hp Hk Ho. unfold collect_charge_bayer_channels_entry. rewrite Hr, Hg, Hb, Hp.
+  replace ((os =? 0) || (pk p =? 0))%Z with false by lia.
+  unfold collect_charge_bayer_channels_any. rewrite Hr, Hg, Hb. cbn [rbind].
+  unfold collect_charge_bayer_channels.
+  assert (forall v : vec QcS, vn v = Z.of_nat (length wv) -> qe_asarray (QVec v) (Z.of_nat (length wv)) = Ok v) as Hq.
+  { intros v Hv. cbn [qe_asarray]. rewrite Hv, Z.eqb_refl. reflexivity. }
+  rewrite (Hq vr (qe_asarray_any_vn _ _ _ _ Hr)), (Hq vg (qe_asarray_any_vn _ _ _ _ Hg)),
+          (Hq vb (qe_asarray_any_vn _ _ _ _ Hb)). cbn [rbind]. rewrite Hp. cbn [rbind].
+  replace ((os <? 1) || (pk p <? 1))%Z with true by lia. reflexivity.
+Qed.
